@@ -1,2 +1,3 @@
 (** Everything the extraction needs (build target of the check driver). *)
-From LC Require Export Spec.Positions Spec.Predicates Model.Reduction Model.TermOps.
+From LC Require Export Spec.Positions Spec.Predicates Spec.Grammar Spec.Printing Spec.Confluence Spec.Standard
+  Model.Reduction Model.TermOps Model.Parser Model.Display.
